@@ -120,6 +120,9 @@ func linBV(l linForm, w int, signed bool) *BV {
 	if !ok {
 		U.nterm++
 		t = &Term{id: U.nterm, Op: "lin", W: w, K: k, Args: ts, Coef: cs, key: rb.String()}
+		if len(t.key) > 400 {
+			t.key = fmt.Sprintf("lin#%d(%s…)", t.id, t.key[:80])
+		}
 		U.terms[key] = t
 	}
 	return termBV(t, w, signed)
@@ -136,7 +139,12 @@ func isArith(v *BV) bool {
 			a := U.atoms[id]
 			if a.kind == aSrc {
 				switch a.src.Kind {
-				case "term", "len", "opaque", "fresh":
+				case "term":
+					if a.src.Term != nil && strings.HasPrefix(a.src.Term.Op, "cellat:") {
+						continue // a dynamically indexed input byte is plain data
+					}
+					return true
+				case "len", "opaque", "fresh":
 					return true
 				}
 			}
